@@ -592,6 +592,10 @@ func oracleC08(s *Scenario, x *vrt.Exec, o *Obs) []vrt.Violation {
 			if !ok || ss.in == nil {
 				continue
 			}
+			if p := plainData(e.Data2, "$"); p != "" {
+				out = append(out, viol(s, "stage-input-not-serialised", e.Step+"."+stage, fmt.Sprintf("input handed to stage %s of step %s is not in serialised (generic) form: %s", stage, e.Step, p)))
+				continue
+			}
 			if _, err := ss.in.Unserialize(e.Data2); err != nil {
 				out = append(out, viol(s, "stage-input-violates-schema", e.Step+"."+stage, fmt.Sprintf("input %s handed to stage %s of step %s does not conform to the stage's input schema: %v", canonStr(e.Data2), stage, e.Step, err)))
 			}
